@@ -52,3 +52,480 @@ func VerifC18_IntAddSub() {
 	zz.Assert("C18.int.addsub.operands-unchanged", x.BigInt().Cmp(a0) == 0 && y.BigInt().Cmp(b0) == 0)
 	zz.Reach("C18.int.addsub")
 }
+
+// vBoundary returns one of a fixed set of boundary constants (forked by Choice).
+func vBoundary(name string) *big.Int {
+	p := func(n uint) *big.Int { return new(big.Int).Lsh(big.NewInt(1), n) }
+	set := []*big.Int{
+		big.NewInt(0), big.NewInt(1), big.NewInt(-1), big.NewInt(2), big.NewInt(-3),
+		big.NewInt(1000000), new(big.Int).Set(precisionReuse), new(big.Int).Neg(precisionReuse),
+		p(63), new(big.Int).Neg(p(64)), p(127), new(big.Int).Sub(p(128), big.NewInt(1)),
+		new(big.Int).Neg(new(big.Int).Sub(p(128), big.NewInt(1))), p(254), new(big.Int).Set(vMaxInt), new(big.Int).Set(vMinInt),
+	}
+	return new(big.Int).Set(set[zz.Choice(name, len(set))])
+}
+
+func vSign(x *big.Int) int { return x.Sign() }
+
+// vTruncDivOK checks q == trunc(a/b) declaratively: a = q*b + r, |r| < |b|, r has the sign of a (or is 0).
+func vTruncDivOK(a, b, q *big.Int) bool {
+	r := new(big.Int).Sub(a, new(big.Int).Mul(q, b))
+	if new(big.Int).Abs(r).Cmp(new(big.Int).Abs(b)) >= 0 {
+		return false
+	}
+	return r.Sign() == 0 || r.Sign() == a.Sign()
+}
+
+// VerifC18_IntMul: one operand fully symbolic, the other from the boundary set (keeps the product linear).
+func VerifC18_IntMul() {
+	a := zz.Big("a", vMinInt, vMaxInt)
+	b := vBoundary("b")
+	a0, b0 := new(big.Int).Set(a), new(big.Int).Set(b)
+	x, y := NewIntFromBigInt(a), NewIntFromBigInt(b)
+	if zz.Choice("swap", 2) == 1 {
+		x, y = y, x
+	}
+	exact := new(big.Int).Mul(a0, b0)
+	var got Int
+	panicked := vPanics(func() { got = x.Mul(y) })
+	zz.Assert("C18.int.mul.panic-iff-overflow", panicked == !vInRange(exact))
+	if !panicked {
+		zz.Assert("C18.int.mul.exact", got.BigInt().Cmp(exact) == 0)
+	}
+	zz.Reach("C18.int.mul")
+}
+
+// VerifC18T_IntMulBoth: both operands symbolic (non-linear; bug hunting only).
+func VerifC18T_IntMulBoth() {
+	a := zz.Big("a", vMinInt, vMaxInt)
+	b := zz.Big("b", vMinInt, vMaxInt)
+	exact := new(big.Int).Mul(a, b)
+	x, y := NewIntFromBigInt(a), NewIntFromBigInt(b)
+	var got Int
+	panicked := vPanics(func() { got = x.Mul(y) })
+	zz.Hunt("C18.int.mulboth.panic-iff-overflow", panicked == !vInRange(exact))
+	_ = got
+	zz.Reach("C18.int.mulboth")
+}
+
+// VerifC18_IntQuoMod: Quo truncates toward zero, Mod is the Euclidean remainder of math/big, both panic iff divisor is zero.
+func VerifC18_IntQuoMod() {
+	a := zz.Big("a", vMinInt, vMaxInt)
+	b := vBoundary("b")
+	x, y := NewIntFromBigInt(a), NewIntFromBigInt(b)
+	var q, m Int
+	pq := vPanics(func() { q = x.Quo(y) })
+	pm := vPanics(func() { m = x.Mod(y) })
+	zz.Assert("C18.int.quo.panic-iff-zero", pq == (b.Sign() == 0) && pm == (b.Sign() == 0))
+	if !pq {
+		zz.Assert("C18.int.quo.truncates", vTruncDivOK(a, b, q.BigInt()))
+		zz.Assert("C18.int.quo.in-range", vInRange(q.BigInt()))
+	}
+	if !pm {
+		mb := m.BigInt()
+		// 0 <= m < |b| and (a - m) divisible by b
+		zz.Assert("C18.int.mod.range", mb.Sign() >= 0 && mb.Cmp(new(big.Int).Abs(b)) < 0)
+		d := new(big.Int).Sub(a, mb)
+		zz.Assert("C18.int.mod.congruent", new(big.Int).Rem(d, b).Sign() == 0)
+	}
+	zz.Reach("C18.int.quomod")
+}
+
+// VerifC18_IntCompare: comparisons, sign predicates, Neg, Min/Max agree with exact integers.
+func VerifC18_IntCompare() {
+	a := zz.Big("a", vMinInt, vMaxInt)
+	b := zz.Big("b", vMinInt, vMaxInt)
+	x, y := NewIntFromBigInt(a), NewIntFromBigInt(b)
+	c := a.Cmp(b)
+	zz.Assert("C18.int.cmp.equal", x.Equal(y) == (c == 0))
+	zz.Assert("C18.int.cmp.gt", x.GT(y) == (c > 0))
+	zz.Assert("C18.int.cmp.gte", x.GTE(y) == (c >= 0))
+	zz.Assert("C18.int.cmp.lt", x.LT(y) == (c < 0))
+	zz.Assert("C18.int.cmp.lte", x.LTE(y) == (c <= 0))
+	zz.Assert("C18.int.sign", x.Sign() == a.Sign() && x.IsZero() == (a.Sign() == 0) && x.IsNegative() == (a.Sign() < 0) && x.IsPositive() == (a.Sign() > 0))
+	zz.Assert("C18.int.neg", x.Neg().BigInt().Cmp(new(big.Int).Neg(a)) == 0)
+	mn, mx := MinInt(x, y).BigInt(), MaxInt(x, y).BigInt()
+	if c <= 0 {
+		zz.Assert("C18.int.minmax", mn.Cmp(a) == 0 && mx.Cmp(b) == 0)
+	} else {
+		zz.Assert("C18.int.minmax", mn.Cmp(b) == 0 && mx.Cmp(a) == 0)
+	}
+	zz.Assert("C18.int.cmp.operands-unchanged", x.BigInt().Cmp(a) == 0 && y.BigInt().Cmp(b) == 0)
+	zz.Reach("C18.int.compare")
+}
+
+// VerifC18_IntInt64: Int64() returns the value iff it fits and panics otherwise; NewIntFromBigInt range check.
+func VerifC18_IntInt64() {
+	big300 := new(big.Int).Lsh(big.NewInt(1), 300)
+	a := zz.Big("a", new(big.Int).Neg(big300), big300)
+	var x Int
+	pn := vPanics(func() { x = NewIntFromBigInt(a) })
+	zz.Assert("C18.int.new.panic-iff-out-of-range", pn == !vInRange(a))
+	if pn {
+		zz.Reach("C18.int.int64.rejected")
+		return
+	}
+	var v int64
+	p := vPanics(func() { v = x.Int64() })
+	fits := a.Cmp(big.NewInt(-1<<63)) >= 0 && a.Cmp(big.NewInt(1<<63-1)) <= 0
+	zz.Assert("C18.int.int64.panic-iff-unfit", p == !fits && x.IsInt64() == fits)
+	if !p {
+		zz.Assert("C18.int.int64.value", big.NewInt(v).Cmp(a) == 0)
+	}
+	zz.Reach("C18.int.int64")
+}
+
+func vUintInRange(x *big.Int) bool { return x.Sign() >= 0 && x.Cmp(vMaxUint) <= 0 }
+
+// VerifC18_Uint: Uint Add/Sub/Mul/Quo/Mod vs exact arithmetic; out of [0,2^256) panics.
+func VerifC18_Uint() {
+	a := zz.Big("a", big.NewInt(0), vMaxUint)
+	op := zz.Choice("op", 4)
+	var b *big.Int
+	if op <= 1 {
+		b = zz.Big("b", big.NewInt(0), vMaxUint)
+	} else {
+		b = new(big.Int).Abs(vBoundary("b"))
+	}
+	x, y := NewUintFromBigInt(a), NewUintFromBigInt(b)
+	var got Uint
+	var exact *big.Int
+	var panicked bool
+	switch op {
+	case 0:
+		exact = new(big.Int).Add(a, b)
+		panicked = vPanics(func() { got = x.Add(y) })
+	case 1:
+		exact = new(big.Int).Sub(a, b)
+		panicked = vPanics(func() { got = x.Sub(y) })
+	case 2:
+		exact = new(big.Int).Mul(a, b)
+		panicked = vPanics(func() { got = x.Mul(y) })
+	case 3:
+		panicked = vPanics(func() { got = x.Quo(y) })
+		zz.Assert("C18.uint.quo.panic-iff-zero", panicked == (b.Sign() == 0))
+		if !panicked {
+			zz.Assert("C18.uint.quo.truncates", vTruncDivOK(a, b, got.i))
+		}
+		zz.Reach("C18.uint.quo")
+		return
+	}
+	zz.Assert("C18.uint.panic-iff-out-of-range", panicked == !vUintInRange(exact))
+	if !panicked {
+		zz.Assert("C18.uint.exact", got.i.Cmp(exact) == 0)
+	}
+	zz.Assert("C18.uint.operands-unchanged", x.i.Cmp(a) == 0 && y.i.Cmp(b) == 0)
+	zz.Reach("C18.uint.arith")
+}
+
+// ---------------------------------------------------------------- Dec
+
+var (
+	vDecBound = new(big.Int).Sub(new(big.Int).Lsh(big.NewInt(1), 315), big.NewInt(1)) // |d| <= 2^315-1
+	vDecMin   = new(big.Int).Neg(vDecBound)
+	vPrec     = new(big.Int).Exp(big.NewInt(10), big.NewInt(18), nil)
+)
+
+func vDecInRange(x *big.Int) bool { return x.Cmp(vDecMin) >= 0 && x.Cmp(vDecBound) <= 0 }
+
+// vHalfEvenOK: r == roundHalfEven(p / s) for s > 0, stated without division:
+// |2(r*s - p)| <= s, and on an exact tie r is even.
+func vHalfEvenOK(p, s, r *big.Int) bool {
+	d := new(big.Int).Sub(new(big.Int).Mul(r, s), p)
+	d2 := new(big.Int).Abs(new(big.Int).Lsh(d, 1))
+	if d2.Cmp(s) > 0 {
+		return false
+	}
+	if d2.Cmp(s) == 0 {
+		return new(big.Int).Rem(r, big.NewInt(2)).Sign() == 0
+	}
+	return true
+}
+
+// vTruncOK: r == trunc(p / s) toward zero for s > 0.
+func vTruncOK(p, s, r *big.Int) bool {
+	rs := new(big.Int).Mul(r, s)
+	if p.Sign() >= 0 {
+		return rs.Cmp(p) <= 0 && new(big.Int).Add(rs, s).Cmp(p) > 0
+	}
+	return rs.Cmp(p) >= 0 && new(big.Int).Sub(rs, s).Cmp(p) < 0
+}
+
+// vCeilOK: r == ceil(p / s) for s > 0.
+func vCeilOK(p, s, r *big.Int) bool {
+	rs := new(big.Int).Mul(r, s)
+	return rs.Cmp(p) >= 0 && new(big.Int).Sub(rs, s).Cmp(p) < 0
+}
+
+// VerifC18_DecChop: the three rounding kernels on an arbitrary scaled integer (full symbolic, division by the constant 10^18).
+func VerifC18_DecChop() {
+	big400 := new(big.Int).Lsh(big.NewInt(1), 400)
+	p := zz.Big("p", new(big.Int).Neg(big400), big400)
+	p0 := new(big.Int).Set(p)
+	switch zz.Choice("kernel", 3) {
+	case 0:
+		r := chopPrecisionAndRoundNonMutative(p)
+		zz.Assert("C18.dec.chop.half-even", vHalfEvenOK(p0, vPrec, r))
+	case 1:
+		r := chopPrecisionAndTruncateNonMutative(p)
+		zz.Assert("C18.dec.chop.truncate", vTruncOK(p0, vPrec, r))
+	case 2:
+		r := chopPrecisionAndRoundUp(new(big.Int).Set(p))
+		zz.Assert("C18.dec.chop.round-up", vCeilOK(p0, vPrec, r))
+	}
+	zz.Assert("C18.dec.chop.input-unchanged", p.Cmp(p0) == 0)
+	zz.Reach("C18.dec.chop")
+}
+
+// VerifC18_DecAddSub: Add/Sub exact, panic iff |result| >= 2^315, comparisons.
+func VerifC18_DecAddSub() {
+	a := zz.Big("a", vDecMin, vDecBound)
+	b := zz.Big("b", vDecMin, vDecBound)
+	x, y := Dec{new(big.Int).Set(a)}, Dec{new(big.Int).Set(b)}
+	var got Dec
+	var exact *big.Int
+	var panicked bool
+	if zz.Choice("op", 2) == 0 {
+		exact = new(big.Int).Add(a, b)
+		panicked = vPanics(func() { got = x.Add(y) })
+	} else {
+		exact = new(big.Int).Sub(a, b)
+		panicked = vPanics(func() { got = x.Sub(y) })
+	}
+	zz.Assert("C18.dec.addsub.panic-iff-overflow", panicked == !vDecInRange(exact))
+	if !panicked {
+		zz.Assert("C18.dec.addsub.exact", got.Int.Cmp(exact) == 0)
+	}
+	c := a.Cmp(b)
+	zz.Assert("C18.dec.cmp", x.Equal(y) == (c == 0) && x.GT(y) == (c > 0) && x.GTE(y) == (c >= 0) && x.LT(y) == (c < 0) && x.LTE(y) == (c <= 0))
+	zz.Assert("C18.dec.sign", x.IsZero() == (a.Sign() == 0) && x.IsNegative() == (a.Sign() < 0) && x.IsPositive() == (a.Sign() > 0))
+	zz.Assert("C18.dec.addsub.operands-unchanged", x.Int.Cmp(a) == 0 && y.Int.Cmp(b) == 0)
+	zz.Reach("C18.dec.addsub")
+}
+
+// vDecBoundary: boundary multipliers/divisors as raw 18-decimal integers.
+func vDecBoundary(name string) *big.Int {
+	s := func(v string) *big.Int { r, _ := new(big.Int).SetString(v, 10); return r }
+	set := []*big.Int{
+		big.NewInt(0), big.NewInt(1), big.NewInt(-1), big.NewInt(2), big.NewInt(3),
+		s("500000000000000000"), s("-500000000000000000"), s("1000000000000000000"), s("-1000000000000000000"),
+		s("1000000000000000001"), s("999999999999999999"), s("333333333333333333"), s("50000000000000000"), s("10000000000000000"),
+		s("3000000000000000000"), s("1000000000000000000000000"), new(big.Int).Lsh(big.NewInt(1), 200), new(big.Int).Neg(new(big.Int).Lsh(big.NewInt(1), 255)),
+	}
+	return new(big.Int).Set(set[zz.Choice(name, len(set))])
+}
+
+// VerifC18_DecMul: Mul rounds half-even, MulTruncate truncates, MulInt exact; panic iff result out of range.
+func VerifC18_DecMul() {
+	a := zz.Big("a", vDecMin, vDecBound)
+	b := vDecBoundary("b")
+	x, y := Dec{new(big.Int).Set(a)}, Dec{new(big.Int).Set(b)}
+	if zz.Choice("swap", 2) == 1 {
+		x, y = y, x
+	}
+	p := new(big.Int).Mul(a, b)
+	var got Dec
+	switch zz.Choice("op", 3) {
+	case 0:
+		panicked := vPanics(func() { got = x.Mul(y) })
+		if !panicked {
+			zz.Assert("C18.dec.mul.half-even", vHalfEvenOK(p, vPrec, got.Int))
+			zz.Assert("C18.dec.mul.in-range", vDecInRange(got.Int))
+		} else {
+			// a panic is only allowed when the correctly rounded result is out of range
+			r := chopPrecisionAndRoundNonMutative(p)
+			zz.Assert("C18.dec.mul.panic-only-on-overflow", !vDecInRange(r))
+		}
+	case 1:
+		panicked := vPanics(func() { got = x.MulTruncate(y) })
+		if !panicked {
+			zz.Assert("C18.dec.multrunc.truncates", vTruncOK(p, vPrec, got.Int))
+			zz.Assert("C18.dec.multrunc.in-range", vDecInRange(got.Int))
+		} else {
+			r := chopPrecisionAndTruncateNonMutative(p)
+			zz.Assert("C18.dec.multrunc.panic-only-on-overflow", !vDecInRange(r))
+		}
+	case 2:
+		// MulInt: Dec * Int exact
+		if !vInRange(b) {
+			zz.Reach("C18.dec.mulint.skip")
+			return
+		}
+		xi := Dec{new(big.Int).Set(a)}
+		panicked := vPanics(func() { got = xi.MulInt(NewIntFromBigInt(new(big.Int).Set(b))) })
+		zz.Assert("C18.dec.mulint.panic-iff-overflow", panicked == !vDecInRange(p))
+		if !panicked {
+			zz.Assert("C18.dec.mulint.exact", got.Int.Cmp(p) == 0)
+		}
+	}
+	zz.Reach("C18.dec.mul")
+}
+
+// vKnownQuo is the trigger region of the known finding dec-quo-double-rounding (see DESIGN.md §6):
+// the quotient d*10^36/d2 is inexact AND the truncated quotient sits exactly on a rounding tie /
+// on a multiple of 10^18.  Outside this region the assertion stays in force.
+func vKnownQuoRegion(num, den *big.Int, mode int) bool {
+	q, r := new(big.Int).QuoRem(num, den, new(big.Int))
+	if r.Sign() == 0 {
+		return false
+	}
+	low := new(big.Int).Rem(new(big.Int).Abs(q), vPrec)
+	if mode == 0 { // half-even: truncated quotient exactly on the tie and its integer part even (code rounds down, exact value is above the tie)
+		ip := new(big.Int).Quo(new(big.Int).Abs(q), vPrec)
+		return low.Cmp(new(big.Int).Quo(vPrec, big.NewInt(2))) == 0 && new(big.Int).Rem(ip, big.NewInt(2)).Sign() == 0
+	}
+	// round-up: truncated quotient exactly a multiple of 10^18 while the true quotient is not
+	return low.Sign() == 0 && num.Sign()*den.Sign() > 0
+}
+
+// VerifC18_DecQuo: Quo rounds half-even, QuoTruncate truncates, QuoRoundUp rounds toward +inf; divisor from the boundary set.
+func VerifC18_DecQuo() {
+	a := zz.Big("a", vDecMin, vDecBound)
+	b := vDecBoundary("b")
+	if b.Sign() == 0 {
+		x := Dec{new(big.Int).Set(a)}
+		zz.Assert("C18.dec.quo.zero-divisor-panics", vPanics(func() { x.Quo(Dec{big.NewInt(0)}) }))
+		zz.Reach("C18.dec.quo.zero")
+		return
+	}
+	x, y := Dec{new(big.Int).Set(a)}, Dec{new(big.Int).Set(b)}
+	// exact quotient = a*10^18 / b  (as a rational); compare with num/den where den > 0
+	num := new(big.Int).Mul(a, vPrec)
+	den := new(big.Int).Set(b)
+	if den.Sign() < 0 {
+		num.Neg(num)
+		den.Neg(den)
+	}
+	var got Dec
+	mode := zz.Choice("op", 3)
+	switch mode {
+	case 0:
+		panicked := vPanics(func() { got = x.Quo(y) })
+		if !panicked {
+			if zz.Known("dec-quo-double-rounding") && vKnownQuoRegion(new(big.Int).Mul(num, vPrec), den, 0) {
+				zz.Reach("C18.dec.quo.known-region")
+				return
+			}
+			zz.Assert("C18.dec.quo.half-even", vHalfEvenOK(num, den, got.Int))
+		}
+	case 1:
+		panicked := vPanics(func() { got = x.QuoTruncate(y) })
+		if !panicked {
+			zz.Assert("C18.dec.quotrunc.truncates", vTruncOK(num, den, got.Int))
+		}
+	case 2:
+		panicked := vPanics(func() { got = x.QuoRoundUp(y) })
+		if !panicked {
+			if zz.Known("dec-quoroundup-double-rounding") && vKnownQuoRegion(new(big.Int).Mul(num, vPrec), den, 1) {
+				zz.Reach("C18.dec.quo.known-region")
+				return
+			}
+			zz.Assert("C18.dec.quoroundup.ceil", vCeilOK(num, den, got.Int))
+		}
+	}
+	zz.Assert("C18.dec.quo.operands-unchanged", x.Int.Cmp(a) == 0 && y.Int.Cmp(b) == 0)
+	zz.Reach("C18.dec.quo")
+}
+
+// VerifC18_DecQuoHunt: both operands symbolic (non-linear): bug hunting for rounding errors of Quo / QuoRoundUp.
+func VerifC18_DecQuoHunt() {
+	lim := new(big.Int).Lsh(big.NewInt(1), 130)
+	a := zz.Big("a", big.NewInt(1), lim)
+	b := zz.Big("b", big.NewInt(1), lim)
+	x, y := Dec{new(big.Int).Set(a)}, Dec{new(big.Int).Set(b)}
+	num := new(big.Int).Mul(a, vPrec)
+	mode := zz.Choice("op", 2)
+	if mode == 0 {
+		got := x.Quo(y)
+		if zz.Known("dec-quo-double-rounding") && vKnownQuoRegion(new(big.Int).Mul(num, vPrec), b, 0) {
+			zz.Reach("C18.dec.quohunt.known-region")
+			return
+		}
+		zz.Hunt("C18.dec.quohunt.half-even", vHalfEvenOK(num, b, got.Int))
+	} else {
+		got := x.QuoRoundUp(y)
+		if zz.Known("dec-quoroundup-double-rounding") && vKnownQuoRegion(new(big.Int).Mul(num, vPrec), b, 1) {
+			zz.Reach("C18.dec.quohunt.known-region")
+			return
+		}
+		zz.Hunt("C18.dec.quohunt.ceil", vCeilOK(num, b, got.Int))
+	}
+	zz.Reach("C18.dec.quohunt")
+}
+
+// VerifC18_DecToInt: RoundInt/RoundInt64/TruncateInt/TruncateInt64/Ceil/IsInteger/TruncateDec/QuoInt follow the same rules and range checks.
+func VerifC18_DecToInt() {
+	a := zz.Big("a", vDecMin, vDecBound)
+	x := Dec{new(big.Int).Set(a)}
+	fits64 := func(v *big.Int) bool { return v.Cmp(big.NewInt(-1<<63)) >= 0 && v.Cmp(big.NewInt(1<<63-1)) <= 0 }
+	switch zz.Choice("op", 7) {
+	case 0:
+		var r Int
+		p := vPanics(func() { r = x.RoundInt() })
+		exact := chopPrecisionAndRoundNonMutative(a)
+		zz.Assert("C18.dec.roundint.panic-iff-out-of-range", p == !vInRange(exact))
+		if !p {
+			zz.Assert("C18.dec.roundint.half-even", vHalfEvenOK(a, vPrec, r.BigInt()))
+		}
+	case 1:
+		var r int64
+		p := vPanics(func() { r = x.RoundInt64() })
+		exact := chopPrecisionAndRoundNonMutative(a)
+		zz.Assert("C18.dec.roundint64.panic-iff-unfit", p == !fits64(exact))
+		if !p {
+			zz.Assert("C18.dec.roundint64.half-even", vHalfEvenOK(a, vPrec, big.NewInt(r)))
+		}
+	case 2:
+		var r Int
+		p := vPanics(func() { r = x.TruncateInt() })
+		exact := chopPrecisionAndTruncateNonMutative(a)
+		zz.Assert("C18.dec.truncint.panic-iff-out-of-range", p == !vInRange(exact))
+		if !p {
+			zz.Assert("C18.dec.truncint.truncates", vTruncOK(a, vPrec, r.BigInt()))
+		}
+	case 3:
+		var r int64
+		p := vPanics(func() { r = x.TruncateInt64() })
+		exact := chopPrecisionAndTruncateNonMutative(a)
+		zz.Assert("C18.dec.truncint64.panic-iff-unfit", p == !fits64(exact))
+		if !p {
+			zz.Assert("C18.dec.truncint64.truncates", vTruncOK(a, vPrec, big.NewInt(r)))
+		}
+	case 4:
+		c := x.Ceil()
+		// c is an integer-valued Dec, c >= x > c-1
+		zz.Assert("C18.dec.ceil", new(big.Int).Rem(c.Int, vPrec).Sign() == 0 && c.Int.Cmp(a) >= 0 && new(big.Int).Sub(c.Int, vPrec).Cmp(a) < 0)
+	case 5:
+		zz.Assert("C18.dec.isinteger", x.IsInteger() == (new(big.Int).Rem(a, vPrec).Sign() == 0))
+		t := x.TruncateDec()
+		zz.Assert("C18.dec.truncdec", new(big.Int).Rem(t.Int, vPrec).Sign() == 0 && vTruncOK(a, vPrec, new(big.Int).Quo(t.Int, vPrec)))
+	case 6:
+		b := vBoundary("i")
+		if b.Sign() == 0 {
+			zz.Assert("C18.dec.quoint.zero-panics", vPanics(func() { x.QuoInt(NewIntFromBigInt(b)) }))
+		} else {
+			q := x.QuoInt(NewIntFromBigInt(b))
+			zz.Assert("C18.dec.quoint.truncates", vTruncDivOK(a, b, q.Int))
+		}
+	}
+	zz.Assert("C18.dec.toint.operand-unchanged", x.Int.Cmp(a) == 0)
+	zz.Reach("C18.dec.toint")
+}
+
+// VerifC18_Power: consensus power = floor(stake / 10^6) and its inverse.
+func VerifC18_Power() {
+	a := zz.Big("stake", big.NewInt(0), vMaxInt)
+	var pr int64
+	pp := vPanics(func() { pr = TokensToConsensusPower(NewIntFromBigInt(a)) })
+	million := big.NewInt(1000000)
+	// fl = floor(a / 10^6) stated declaratively (a >= 0)
+	zz.Assert("C18.power.panic-iff-unrepresentable", pp == (a.Cmp(new(big.Int).Mul(new(big.Int).Lsh(big.NewInt(1), 63), million)) >= 0))
+	if !pp {
+		lo := new(big.Int).Mul(big.NewInt(pr), million)
+		zz.Assert("C18.power.floor", pr >= 0 && lo.Cmp(a) <= 0 && new(big.Int).Add(lo, million).Cmp(a) > 0)
+	}
+	p := zz.Int64("p", 0, 1<<53)
+	tk := TokensFromConsensusPower(p)
+	zz.Assert("C18.power.inverse", tk.BigInt().Cmp(new(big.Int).Mul(big.NewInt(p), million)) == 0 && TokensToConsensusPower(tk) == p)
+	zz.Reach("C18.power")
+}
